@@ -83,11 +83,12 @@ def strategy(tier):
     d = st.tuples(st.just("d"), st.integers(0, 7), st.integers(0, 5)).map(list)
     r = st.just(["r"])
     o = st.just(["o"])
-    ev = gen.weighted((12, q), (6, d), (1, r), (1, o))
+    b = st.tuples(st.just("b"), st.integers(0, 2)).map(list)
+    ev = gen.weighted((12, q), (6, d), (1, r), (1, o), (2, b))
     return st.fixed_dictionaries(
         {
             "inst": inst,
-            "filters": gen.filter_configs(),
+            "filters": gen.filter_configs(custom=True),
             "events": gen.sized_lists(ev, 70),
             "observers": gen.weighted((2, st.just([])), (1, obs.feature_configs(min_size=1, max_size=3))),
         }
@@ -266,6 +267,7 @@ def check_case(case, ctx):
         for cfg in case.get("observers", []):
             obs.make_feature_observer(drv.dispatcher, cfg)  # queries must not depend on observers
     stt = State(ctx, drv)
+    bystander = None
     n_dispatch = 0
     saw_ongoing = False
     seen_in_state = []
@@ -283,6 +285,24 @@ def check_case(case, ctx):
             seen_in_state = []
             if drv.model.ongoing(stt.now):
                 saw_ongoing = True
+        elif ev[0] == "b":
+            # a bystander: another dispatcher with its own observer on another
+            # instance lives in the same process and is used in between
+            if bystander is None:
+                from job_shop_lib import JobShopInstance as _JSI, Operation as _Op
+                from job_shop_lib.dispatching import Dispatcher as _D
+
+                other = _JSI([[_Op(0, 2), _Op(1, 1), _Op(0, 3)], [_Op(1, 4)]], name="bystander")
+                bd = _D(other)
+                bystander = (other, bd, UnscheduledOperationsObserver(bd))
+            other, bd, _bo = bystander
+            if ev[1] == 0 or bd.schedule.is_complete():
+                bd.reset()
+            else:
+                op = bd.raw_ready_operations()[0]
+                bd.dispatch(op, op.machines[0])
+            bd.unscheduled_operations()
+            ctx.count("bystander_events")
         elif ev[0] == "o":
             # a new observer attached in the middle of the run
             drv.dispatcher.unsubscribe(drv.unsched_obs)
